@@ -1,3 +1,4 @@
+use crate::architecture::Endian;
 use crate::il::Expression as Expr;
 use crate::il::*;
 use crate::Error;
@@ -1048,47 +1049,51 @@ pub fn lw(
     Ok(())
 }
 
+/// For LWL/LWR/SWL/SWR: the aligned word containing `address`, and the number of bits between the
+/// addressed byte and the most significant byte of that word: 8 * (address & 3) in big-endian
+/// byte order, 8 * (3 - (address & 3)) in little-endian byte order.
+fn unaligned_word_and_shift(address: Expr, endian: &Endian) -> Result<(Expr, Expr), Error> {
+    let aligned = Expr::and(address.clone(), expr_const(0xffff_fffc, 32))?;
+    let byte = Expr::and(address, expr_const(3, 32))?;
+    let byte = match *endian {
+        Endian::Big => byte,
+        Endian::Little => Expr::sub(expr_const(3, 32), byte)?,
+    };
+    Ok((aligned, Expr::shl(byte, expr_const(3, 32))?))
+}
+
 pub fn lwl(
     control_flow_graph: &mut ControlFlowGraph,
     instruction: &capstone::Instr,
+    endian: &Endian,
 ) -> Result<(), Error> {
     let detail = details(instruction)?;
 
     // get operands
-    let dst = get_register(detail.operands[0].reg())?.scalar();
+    let dst = get_register(detail.operands[0].reg())?;
     let base = get_register(detail.operands[1].mem().base)?.expression();
     let offset = expr_const(detail.operands[1].mem().disp as u64, 32);
 
     let block_index = {
         let block = control_flow_graph.new_block()?;
 
-        let address = Expr::add(base, offset)?;
-
-        // get the number of bits to clear
-        let bytes_to_clear = Expr::sub(
-            expr_const(4, 32),
-            Expr::and(expr_const(3, 32), address.clone())?,
-        )?;
-        let bits_to_clear = Expr::shl(bytes_to_clear, expr_const(3, 32))?;
-
-        // get the number of bytes to shift the result
-        let bytes_to_shift = Expr::and(expr_const(3, 32), address.clone())?;
-        let bits_to_shift = Expr::shl(bytes_to_shift, expr_const(3, 32))?;
+        let (aligned, shift) = unaligned_word_and_shift(Expr::add(base, offset)?, endian)?;
 
         let tmp = Scalar::temp(instruction.address, 32);
-        block.load(tmp.clone(), address);
+        block.load(tmp.clone(), aligned);
 
-        // clear the dst register by shifting left then right
-        let dst_expr = Expr::shl(dst.clone().into(), bits_to_clear.clone())?;
-        let dst_expr = Expr::shr(dst_expr, bits_to_clear)?;
+        // the bytes from the addressed one to the least significant end of the word go to the
+        // most significant end of the register; the rest of the register is kept
+        let kept = Expr::and(
+            dst.expression(),
+            Expr::xor(
+                Expr::shl(expr_const(0xffff_ffff, 32), shift.clone())?,
+                expr_const(0xffff_ffff, 32),
+            )?,
+        )?;
+        let loaded = Expr::shl(tmp.into(), shift)?;
 
-        // zero out the right bits in the loaded word
-        let tmp = Expr::shl(Expr::shr(tmp.into(), bits_to_shift.clone())?, bits_to_shift)?;
-
-        // or together
-        let dst_expr = Expr::or(dst_expr, tmp)?;
-
-        block.assign(dst, dst_expr);
+        block.assign(dst.scalar(), Expr::or(kept, loaded)?);
 
         block.index()
     };
@@ -1102,41 +1107,36 @@ pub fn lwl(
 pub fn lwr(
     control_flow_graph: &mut ControlFlowGraph,
     instruction: &capstone::Instr,
+    endian: &Endian,
 ) -> Result<(), Error> {
     let detail = details(instruction)?;
 
     // get operands
-    let dst = get_register(detail.operands[0].reg())?.scalar();
+    let dst = get_register(detail.operands[0].reg())?;
     let base = get_register(detail.operands[1].mem().base)?.expression();
     let offset = expr_const(detail.operands[1].mem().disp as u64, 32);
 
     let block_index = {
         let block = control_flow_graph.new_block()?;
 
-        let address = Expr::sub(Expr::add(base, offset)?, expr_const(3, 32))?;
+        let (aligned, shift) = unaligned_word_and_shift(Expr::add(base, offset)?, endian)?;
+        let shift = Expr::sub(expr_const(24, 32), shift)?;
 
-        // create a bit mask for dst and the loaded result
-        let mask_bytes = Expr::and(address.clone(), expr_const(3, 32))?;
-        let mask_bits = Expr::shl(mask_bytes, expr_const(3, 32))?;
-        let mask_bit = Expr::shl(expr_const(1, 32), mask_bits)?;
-        let mask = Expr::sub(mask_bit, expr_const(1, 32))?;
-
-        // load our word from memory
         let tmp = Scalar::temp(instruction.address, 32);
-        block.load(tmp.clone(), address);
+        block.load(tmp.clone(), aligned);
 
-        // we want to and this word with our mask to remove the high bits
-        let temp = Expr::and(tmp.into(), mask.clone())?;
-
-        // and out the bits we're about to set in dst
-        let dst_expr = Expr::and(
-            dst.clone().into(),
-            Expr::sub(expr_const(0xffff_ffff, 32), mask)?,
+        // the bytes from the most significant end of the word to the addressed one go to the
+        // least significant end of the register; the rest of the register is kept
+        let kept = Expr::and(
+            dst.expression(),
+            Expr::xor(
+                Expr::shr(expr_const(0xffff_ffff, 32), shift.clone())?,
+                expr_const(0xffff_ffff, 32),
+            )?,
         )?;
+        let loaded = Expr::shr(tmp.into(), shift)?;
 
-        let dst_expr = Expr::or(dst_expr, temp)?;
-
-        block.assign(dst, dst_expr);
+        block.assign(dst.scalar(), Expr::or(kept, loaded)?);
 
         block.index()
     };
@@ -2404,6 +2404,7 @@ pub fn sw(
 pub fn swl(
     control_flow_graph: &mut ControlFlowGraph,
     instruction: &capstone::Instr,
+    endian: &Endian,
 ) -> Result<(), Error> {
     let detail = details(instruction)?;
 
@@ -2415,39 +2416,25 @@ pub fn swl(
     let block_index = {
         let block = control_flow_graph.new_block()?;
 
-        let address = Expr::add(base, offset)?;
+        let (aligned, shift) = unaligned_word_and_shift(Expr::add(base, offset)?, endian)?;
 
         // load the value currently in memory
         let tmp = Scalar::temp(instruction.address, 32);
-        block.load(
-            tmp.clone(),
-            Expr::and(expr_const(0xffff_fffc, 32), address.clone())?,
-        );
+        block.load(tmp.clone(), aligned.clone());
 
-        // create a mask for our value
-        let mask_bytes = Expr::and(address.clone(), expr_const(3, 32))?;
-        // we want the opposite of the number of bytes we are storing
-        let mask_bytes = Expr::sub(expr_const(4, 32), mask_bytes)?;
-        let mask_bits = Expr::shl(mask_bytes, expr_const(3, 32))?;
-
-        let mask = Expr::sub(Expr::shl(expr_const(1, 32), mask_bits)?, expr_const(1, 32))?;
-
-        // and the loaded value with our mask
-        // this operation inverts the mask
-        let tmp = Expr::and(Expr::sub(expr_const(0xffff_ffff, 32), mask)?, tmp.into())?;
-
-        // figure out how many bits we should shift our value right
-        let shift_bytes = Expr::and(address.clone(), expr_const(3, 32))?;
-        let shift_bits = Expr::shl(shift_bytes, expr_const(3, 32))?;
-
-        // shift the value right
-        let rt = Expr::shr(rt, shift_bits)?;
-
-        // or them together
-        let expr = Expr::or(tmp, rt)?;
+        // the most significant bytes of the register replace the bytes from the addressed one
+        // to the least significant end of the word
+        let kept = Expr::and(
+            tmp.into(),
+            Expr::xor(
+                Expr::shr(expr_const(0xffff_ffff, 32), shift.clone())?,
+                expr_const(0xffff_ffff, 32),
+            )?,
+        )?;
+        let stored = Expr::shr(rt, shift)?;
 
         // store it back in memory
-        block.store(Expr::and(expr_const(0xffff_fffc, 32), address)?, expr);
+        block.store(aligned, Expr::or(kept, stored)?);
 
         block.index()
     };
@@ -2461,6 +2448,7 @@ pub fn swl(
 pub fn swr(
     control_flow_graph: &mut ControlFlowGraph,
     instruction: &capstone::Instr,
+    endian: &Endian,
 ) -> Result<(), Error> {
     let detail = details(instruction)?;
 
@@ -2472,32 +2460,26 @@ pub fn swr(
     let block_index = {
         let block = control_flow_graph.new_block()?;
 
-        let address = Expr::sub(Expr::add(base, offset)?, expr_const(3, 32))?;
+        let (aligned, shift) = unaligned_word_and_shift(Expr::add(base, offset)?, endian)?;
+        let shift = Expr::sub(expr_const(24, 32), shift)?;
 
-        // create a bit mask for dst and the loaded result
-        let mask_bytes = Expr::and(address.clone(), expr_const(3, 32))?;
-        let mask_bits = Expr::shl(mask_bytes, expr_const(3, 32))?;
-        let mask_bit = Expr::shl(expr_const(1, 32), mask_bits)?;
-        let mask = Expr::sub(mask_bit, expr_const(1, 32))?;
-
-        // load our word from memory
+        // load the value currently in memory
         let tmp = Scalar::temp(instruction.address, 32);
-        block.load(tmp.clone(), address.clone());
+        block.load(tmp.clone(), aligned.clone());
 
-        // zero out the words we're about to set in dst
-        let dst_expr = Expr::and(
+        // the least significant bytes of the register replace the bytes from the most
+        // significant end of the word to the addressed one
+        let kept = Expr::and(
             tmp.into(),
-            Expr::sub(expr_const(0xffff_ffff, 32), mask.clone())?,
+            Expr::xor(
+                Expr::shl(expr_const(0xffff_ffff, 32), shift.clone())?,
+                expr_const(0xffff_ffff, 32),
+            )?,
         )?;
-
-        // zero out the bits we're not setting in rt
-        let rt = Expr::and(rt, mask)?;
-
-        // or the two together
-        let dst_expr = Expr::or(dst_expr, rt)?;
+        let stored = Expr::shl(rt, shift)?;
 
         // store it back in memory
-        block.store(address, dst_expr);
+        block.store(aligned, Expr::or(kept, stored)?);
 
         block.index()
     };
